@@ -24,6 +24,14 @@ WORDS = ["va", "vb", "vc", "vd"]
 # --------------------------------------------------------------------------
 # documents
 # --------------------------------------------------------------------------
+QK = "<<\x00"          # an ORDINARY string key spelled << (written quoted: "<<" or '<<'), as opposed to the merge key
+
+
+def kj(k):
+    """the key as the resolved document / JSON shows it"""
+    return "<<" if k == QK else k
+
+
 def sc(text, a=None):
     return {"t": "sc", "a": a, "s": str(text)}
 
@@ -52,7 +60,8 @@ def yaml_of(n):
     if t == "sq":
         return pre + "[" + ", ".join(yaml_of(x) for x in n["items"]) + "]"
     ka = n.get("ka") or {}             # anchors on KEYS: {&k name: web}
-    return pre + "{" + ", ".join("%s%s: %s" % (("&%s " % ka[k]) if k in ka else "", k, yaml_of(v)) for k, v in n["es"]) + "}"
+    qs = n.get("qstyle", '"')
+    return pre + "{" + ", ".join("%s%s: %s" % (("&%s " % ka[k]) if k in ka else "", (qs + "<<" + qs) if k == QK else k, yaml_of(v)) for k, v in n["es"]) + "}"
 
 
 def coq_of(n):
@@ -68,13 +77,14 @@ def coq_of(n):
 
 
 def coq_path(p):
-    return "[" + "; ".join(("PKey %s" % vlib.coq_str(s)) if isinstance(s, str) else ("PIdx %d" % s) for s in p) + "]"
+    # in a resolved document the only key spelled << is the ordinary (quoted) one: the model knows it as QK
+    return "[" + "; ".join(("PKey %s" % vlib.coq_str(QK if s == "<<" else s)) if isinstance(s, str) else ("PIdx %d" % s) for s in p) + "]"
 
 
 def expr_of(p):
     if not p:
         return "."
-    return "".join((".%s" % s) if isinstance(s, str) else ("[%d]" % s) for s in p)
+    return "".join(('["<<"]' if s == "<<" else ".%s" % s) if isinstance(s, str) else ("[%d]" % s) for s in p)
 
 
 class Malformed(Exception):
@@ -96,7 +106,7 @@ def resolve(n):
     out = {}
     for k, v in n["es"]:
         if k != "<<":
-            out[k] = resolve(v)
+            out[kj(k)] = resolve(v)
     explicit = set(out)
     for k, v in n["es"]:
         if k == "<<":
@@ -194,6 +204,10 @@ def unexploded_target_with_merge(root):
     return any(has_merge_inside(t) for t in alias_targets(root))
 
 
+def has_real_merge(root):
+    return any(k == "<<" for m in maps_in(root) for k, _ in m["es"])
+
+
 def doc_classes(root):
     """Defect classes of KNOWN_FINDINGS.txt that the document can trigger (computed from ground truth)."""
     out = set()
@@ -212,7 +226,7 @@ def doc_classes(root):
                 keysets.append(set(r) if isinstance(r, dict) else set())
             merged = set().union(*keysets) if keysets else set()
             for j, (k2, _) in enumerate(es):
-                if j < i and k2 != "<<" and k2 in merged:
+                if j < i and k2 != "<<" and kj(k2) in merged:
                     out.add("explicit-before-merge")
             for a in range(len(keysets)):
                 for b in range(a + 1, len(keysets)):
@@ -268,6 +282,11 @@ class Gen:
         if self.anchors and r < 0.2:
             n, t = rng.choice(self.anchors)
             return al(n, t)
+        mas0 = self.map_anchors()
+        if mas0 and r < 0.27:
+            # a sequence of aliases to anchored maps (merge-bearing ones included), itself anchored and aliased later
+            items = [al(*rng.choice(mas0)) for _ in range(rng.randrange(1, 4))]
+            return self.reg(sq(items), 0.8)
         if depth >= 3 or r < 0.55:
             return self.reg(sc(self.scalar()), 0.3)
         if r < 0.7:
@@ -330,10 +349,19 @@ class Gen:
                 mv = sq([al(n, t) for n, t in picks])
             pos = rng.randrange(0, len(es) + 1) if self.adv else 0
             es.insert(pos, ["<<", mv])
+        if rng.random() < 0.1:
+            # an ordinary string key spelled <<, beside (or instead of) a real merge key: it merges nothing
+            qv = sc(self.scalar())
+            if mas and rng.random() < 0.6:        # only anchors defined before this map: the entry may stand anywhere in it
+                n2, t2 = rng.choice(mas)
+                qv = al(n2, t2) if rng.random() < 0.6 else sq([al(n2, t2)])
+            es.insert(rng.randrange(0, len(es) + 1), [QK, qv])
         node = mp(es)
+        if rng.random() < 0.5:
+            node["qstyle"] = "'"
         # anchors on keys: a later alias to one stands for the key's text
         for k, _ in es:
-            if k != "<<" and rng.random() < 0.12:
+            if k != "<<" and k != QK and rng.random() < 0.12:
                 nm = self.fresh()
                 node.setdefault("ka", {})[k] = nm
                 self.anchors.append((nm, sc(k)))
@@ -386,7 +414,17 @@ def fixed_docs():
     svc["ka"] = {"name": "k"}
     svc["es"][2][1]["ka"] = {"port": "p"}
     d6 = mp([["defaults", dflt], ["base", base], ["svc", svc]])
-    return [d1, d2, d3, d4, d5, d6, mp([]), mp([["k", sc("null")]])]
+    b7 = mp([["x", sc(1)], ["y", sc(2)]], "base")
+    svc7 = mp([["<<", al("base", b7)], ["y", sc(20)]], "svc")
+    all7 = sq([al("svc", svc7), al("base", b7)], "all")
+    d7 = mp([["base", b7], ["svc", svc7], ["all", all7], ["copy", al("all", all7)], ["user", mp([["targets", al("all", all7)]])]])
+    df8 = mp([["x", sc(1)], ["y", sc(2)]], "defaults")
+    d8 = mp([["defaults", df8], ["real", mp([["<<", al("defaults", df8)], ["y", sc(5)]])],
+             ["ops", mp([[QK, al("defaults", df8)], ["y", sc(5)]])],
+             ["list", mp([[QK, sq([al("defaults", df8)])], ["z", sc(3)]])],
+             ["both", mp([["<<", al("defaults", df8)], [QK, sc(7)], ["z", sc(3)]])]])
+    d8["es"][3][1]["qstyle"] = "'"
+    return [d1, d2, d3, d4, d5, d6, d7, d8, mp([]), mp([["k", sc("null")]])]
 
 
 # --------------------------------------------------------------------------
@@ -415,7 +453,8 @@ def obs(r):
 def as_bytes(o):
     k, v = o
     if k == "ok":
-        return v.encode("utf-8")
+        # a "<<" member in JSON output can only be the ordinary string key (the model's QK)
+        return v.encode("utf-8").replace(b'"<<"', b'"' + QK.encode() + b'"')
     if k == "err":
         return b"\xfb"
     return b"\xff"
@@ -443,7 +482,7 @@ def judge_doc(doc, truth, paths, rs, ryaml):
     -> list of (verdict, class, detail, path)"""
     out = []
     classes = doc_classes(doc)
-    whole = parse_json(obs(rs[-1]))
+    whole = parse_json(obs(rs[2 * len(paths)]))
     if whole[0] != "ok":
         out.append(("violation", None, "-o=json . failed: %r" % (whole,), None))
         whole = None
@@ -458,16 +497,21 @@ def judge_doc(doc, truth, paths, rs, ryaml):
         r3 = want_of(whole, p) if whole is not None else None
         wv = want[1]
         container = isinstance(wv, (dict, list))
-        for name, r in (("traverse", r1), ("explode-then-read", r2), ("json-then-read", r3)):
+        r4 = parse_json(obs(rs[2 * len(paths) + 1 + i]))
+        for name, r in (("traverse", r1), ("explode-then-read", r2), ("json-then-read", r3), ("explode-of-the-node-then-read", r4)):
             if r is None:
                 continue
             if r[0] == "ok" and r[1] == wv:
+                continue
+            if name in ("traverse", "explode-of-the-node-then-read") and "<<" in p and has_real_merge(doc):
+                # asking for the key spelled << is special-cased by the traversal (merge keys match it directly and are not followed)
+                out.append(("deviation", "quoted-merge-read", "%s of %s gives %r, the resolved document has %r" % (name, expr_of(p), r[1:] if r[0] == "ok" else r, wv), p))
                 continue
             out.append(("deviation", None, "%s of %s gives %r, the resolved document has %r" % (name, expr_of(p), r[1:] if r[0] == "ok" else r, wv), p))
     ky, vy = obs(ryaml)
     if ky != "ok":
         out.append(("violation", None, "explode(.) failed: %r" % (vy,), None))
-    elif re.search(r"[&*]|<<", vy):
+    elif re.search(r"[&*]|<<", re.sub(r"""["']<<["']""", "", vy)):
         out.append(("violation", None, "explode(.) left an anchor, alias or merge key behind: %s" % vy[:200], None))
     res = []
     for verdict, cls, detail, p in out:
@@ -489,6 +533,9 @@ def doc_exprs(paths):
         ex.append(expr_of(p))
         ex.append("explode(.) | " + expr_of(p))
     ex.append(".")
+    # explode applied to a non-root node only, then read back (after the three routes of every path and ".")
+    for p in paths:
+        ex.append("explode(%s) | %s" % (expr_of(p), expr_of(p)))
     return ex
 
 
@@ -498,6 +545,9 @@ def yq_json(doc_text, expr):
 
 
 def replay_known(chk):
+    dq = "a: &a {x: 1}\nq: {\"<<\": 7, <<: *a, z: 3}\n"
+    if yq_json(dq, '.q["<<"]')[1] == '{"x":1}' and yq_json(dq, 'explode(.) | .q["<<"]')[1] == "7":
+        chk.known_finding("quoted-merge-read", '.q["<<"] reads {"x":1}, explode(.) | .q["<<"] reads 7')
     d = "a: &a {x: 1, y: 2}\nb: &b {x: 10, w: 3}\nm: {<<: [*a, *b], q: 0}\nn: {x: 5, <<: *a}\n"
     r1 = yq_json(d, ".m.x")
     r2 = yq_json(d, "explode(.) | .m.x")
@@ -532,16 +582,16 @@ def replay(rp):
     text, truth, paths = rp["yaml"], rp["truth"], [tuple(p) for p in rp["paths"]]
     rs = multi([(text, doc_exprs(paths))])[0]
     ry = multi([(text, ["explode(.)"])], out="yaml")[0][0]
-    whole = parse_json(obs(rs[-1]))
+    whole = parse_json(obs(rs[2 * len(paths)]))
     if whole[0] != "ok" or whole[1] != truth:
         return False
     for i, p in enumerate(paths):
         want = want_of(truth, p)[1]
-        for r in (parse_json(obs(rs[2 * i])), parse_json(obs(rs[2 * i + 1]))):
+        for r in (parse_json(obs(rs[2 * i])), parse_json(obs(rs[2 * i + 1])), parse_json(obs(rs[2 * len(paths) + 1 + i]))):
             if r[0] != "ok" or r[1] != want:
                 return False
     ky, vy = obs(ry)
-    return ky == "ok" and not re.search(r"[&*]|<<", vy)
+    return ky == "ok" and not re.search(r"[&*]|<<", re.sub(r"""["']<<["']""", "", vy))
 
 
 # --------------------------------------------------------------------------
@@ -618,9 +668,14 @@ def run(chk):
             stats["paths"] += 1
             chk.count(("path", text, p), nontrivial=("*" in text),
                       sample={"doc": text, "path": expr_of(p), "traverse": obs(rs[2 * i])[1], "exploded": obs(rs[2 * i + 1])[1]} if (len(text) < 90 and "<<" in text and len(p) == 2) else None)
+            if "<<" in p and has_real_merge(doc):
+                stats["quoted_merge_reads_not_modelled"] = stats.get("quoted_merge_reads_not_modelled", 0) + 1
+                c2.append(("(%s, %s)" % (cd, coq_path(p)), as_bytes(obs(rs[2 * i + 1])), (text, p)))
+                continue
             c1.append(("(%s, %s)" % (cd, coq_path(p)), as_bytes(obs(rs[2 * i])), (text, p)))
             c2.append(("(%s, %s)" % (cd, coq_path(p)), as_bytes(obs(rs[2 * i + 1])), (text, p)))
-        c3.append((cd, as_bytes(obs(rs[-1])), (text, ())))
+            c1.append(("(%s, %s)" % (cd, coq_path(p)), as_bytes(obs(rs[2 * len(ps) + 1 + i])), (text, p)))
+        c3.append((cd, as_bytes(obs(rs[2 * len(ps)])), (text, ())))
         cdom.append((cd, b"\x00" if cl else b"\x01", (text, ())))
 
     # ---------------- multi-document streams: every document re-uses the same anchor names ----------------
